@@ -1,5 +1,6 @@
 import ScrapliModel.Lemmas.HelloFrame
 import ScrapliModel.Netconf.HelloState
+import ScrapliModel.Generated.C09State
 import ScrapliModel.Generated.BodiesNetconf
 /-!
 # C09 — NETCONF session establishment negotiates the right version or fails cleanly
@@ -566,5 +567,27 @@ theorem frozen_index_violates_both :
       = [.opened .v11, .closed, .opened .v11] ∧
     run false true DState.init [.openHello both [], .close, .openHello only10 []]
       = [.opened .v11, .closed, .opened .v10] := by decide
+
+/-! ## tie of the history model to the source (facts regenerated by `gen_c09.go` on every run) -/
+
+/-- obligation: `ServerHasCapability` touches the capability list and nothing else of the driver
+(no cache, no index, no once-guard): the `frozen = false` lookup of the history model -/
+theorem hasCap_reads_only_capability_list :
+    Gen.C09State.hasCapFound = true ∧ Gen.C09State.hasCapReceiverRefs = ["serverCapabilities"] := by
+  decide
+
+/-- obligation: `processServerCapabilities` replaces the capability list unconditionally (top
+level of its body, before any statement that can return nil), and it is the only function of the
+package that assigns the list: `negotiate`'s `{ s with caps := caps }` -/
+theorem processCaps_assigns_list_unconditionally :
+    Gen.C09State.procCapsFound = true ∧
+    "serverCapabilities" ∈ Gen.C09State.procCapsAssignsBeforeSuccessReturn ∧
+    Gen.C09State.capabilityListWriters = ["processServerCapabilities"] := by decide
+
+/-- the session-id is assigned at the top level too, but only after the early `return nil` for a
+hello without session-id — exactly the model's `session_id_kept_when_absent` -/
+theorem processCaps_sessionID_after_early_return :
+    "sessionID" ∈ Gen.C09State.procCapsTopLevelAssigns ∧
+    "sessionID" ∉ Gen.C09State.procCapsAssignsBeforeSuccessReturn := by decide
 
 end Scrapli.Netconf.C09
